@@ -374,7 +374,7 @@ def run(rep, tier, rng):
             sig = f"C20|{d['code']}|{msg[:60]}"
             if d["code"] == "E0793" and re.search(r"#\[repr\([^)]*packed", c.code):
                 sig = "C20|E0793|packed-struct"     # one signature for the listed finding (the same one C12 lists)
-            if d["code"] == "E0283" and "&'a T" in c.code and "&'b T" in c.code:
+            if d["code"] == "E0283" and len(set(re.findall(r"&'(\w+) T\b", c.code))) >= 2:
                 sig = "C20|E0283|field-types-equal-up-to-lifetimes"     # listed finding (the same one C12 lists)
             sigs.setdefault(sig, []).append((c, d, ft, tr))
     for sig, lst in list(sigs.items())[:30]:
